@@ -71,3 +71,7 @@ Proof.
   - apply negb_true_iff. exact H1.
   - apply mem_s_In. exact H2.
 Qed.
+
+(* every except clause of the package: reports, re-raises declared classes only, or is a justified silent fallback *)
+Lemma handlers_all_ok : forallb handler_ok handlers = true /\ silent_live = true.
+Proof. split; vm_compute; reflexivity. Qed.
